@@ -396,8 +396,13 @@ def damage(rng, text):
         n = len(t)
         special = [i for i, ch in enumerate(t) if ch in '()"|;:!. -0123456789']
         pos = rng.choice(special) if special and rng.random() < 0.7 else rng.randint(0, n - 1)
-        k = rng.choice(['truncate', 'flip', 'delete', 'dup', 'insert', 'sexpr-dup', 'sexpr-replace', 'token-swap', 'line-move'])
+        k = rng.choice(['truncate', 'flip', 'delete', 'dup', 'insert', 'sexpr-dup', 'sexpr-replace', 'token-swap', 'line-move', 'tail-garbage'])
         kinds.append(k)
+        if k == 'tail-garbage':
+            # something left over after the last complete command (depth 0): an opened string / quoted symbol / parenthesis that
+            # never closes, a stray closing parenthesis or token, a comment without newline
+            t = t.rstrip('\n') + rng.choice(['\n', ' ', '\n\n']) + rng.choice(['"', '|', '"abc', '|q r', '(', ')', 'abc', '; comment', '(exit', '(check-sat', '"" "', '\x00', '#b01'])
+            continue
         if k in ('sexpr-dup', 'sexpr-replace'):
             # structural damage that keeps the text well-formed: an s-expression is duplicated in place (repeated argument,
             # duplicate let binder, command given twice) or overwritten by a copy of another one (ill-sorted term, wrong arity,
